@@ -1,12 +1,12 @@
 """C35 — sparse-matrix utilities and index helpers against dense reference semantics.
 
-Utilities with a Coq model (tie = raw arrays compared by Coq, then dense):
+Utilities with a Coq model AND theorems (tie = raw arrays compared by Coq, then dense):
   expand_index_pointers, expand_indices_nd, expand_indices_add_increment, rlencode,
   rldecode, slice_sparse_matrix, slice_indices, zero_rows, zero_columns, stack_mat,
-  stack_diag.
+  stack_diag, merge_matrices, block_diag_index (both call forms).
 Oracle-only (dense numpy reference on generated inputs, no Coq model):
-  merge_matrices, csr/csc_matrix_from_sparse_blocks, csr/csc_matrix_from_dense_blocks,
-  block_diag_index, block_diag_matrix, sparse_kronecker_product.
+  csr/csc_matrix_from_sparse_blocks, csr/csc_matrix_from_dense_blocks, block_diag_matrix,
+  sparse_kronecker_product.
 """
 import numpy as np
 import scipy.sparse as sps
@@ -124,34 +124,44 @@ class C35(Prop):
         "(one record for csr and csc, lines along the compressed axis) and its dense reference "
         "to_dense (duplicates summed, stored zeros kept): expand_index_pointers = concatenated "
         "aranges for all integer bounds, with broadcasting and the ValueError branch; "
-        "rldecode = np.repeat for all counts (zero/negative included) and element types; "
+        "expand_indices_nd (order F and C) and expand_indices_add_increment = closed form of the "
+        "ravelled broadcast array; rldecode = np.repeat for all counts (zero/negative included), "
+        "element types and operand lengths (IndexError exactly when a positive count lies beyond A); "
         "rlencode round-trips through rldecode with positive counts and maximal compression; "
         "slice_sparse_matrix / slice_indices return exactly the selected stored lines (any order, "
-        "repeats) and hence the dense A[ind,:] / A[:,ind], IndexError otherwise; stack_mat = "
-        "vstack/hstack; stack_diag = [[A,0],[0,B]] densely, for every well-formed matrix "
-        "(unsorted or duplicate indices, empty lines, empty extents). The models are tied to the "
-        "code on every run: the real functions and the models are executed on the same generated "
-        "csr/csc triples and index sets and Coq compares the raw indptr/indices/data/shape and "
-        "the dense form. Every utility of the property, modelled or not, is also checked against "
-        "an independent dense numpy reference on the generated inputs.")
+        "repeats) and hence the dense A[ind,:] / A[:,ind], IndexError otherwise; zero_rows / "
+        "zero_columns zero exactly the selected lines and keep the structure; stack_mat = "
+        "vstack/hstack; stack_diag = [[A,0],[0,B]] densely; merge_matrices (as repaired) replaces "
+        "line lines[k] by line k of B for distinct lines IN ANY ORDER (argsort + np.insert + mask + "
+        "cumsum bookkeeping), densely A[lines,:] = B / A[:,lines] = B, with its three ValueError "
+        "checks; block_diag_index(m) and block_diag_index(m, n) = closed forms (zero extents "
+        "allowed); all for every well-formed matrix (unsorted or duplicate indices, empty lines, "
+        "empty extents). The models are tied to the code on every run: the real functions and the "
+        "models are executed on the same generated csr/csc triples and index sets and Coq compares "
+        "the raw indptr/indices/data/shape and the dense form. Every utility of the property, "
+        "modelled or not, is also checked against an independent dense numpy reference on the "
+        "generated inputs.")
     level_note = (
-        "NOT proved (oracle-only, no Coq model): merge_matrices, csr/csc_matrix_from_sparse_blocks, "
-        "csr/csc_matrix_from_dense_blocks, block_diag_index, block_diag_matrix, "
-        "sparse_kronecker_product. Modelled and tied but without a theorem: zero_rows/zero_columns "
-        "(model = data[array_ind] = 0), expand_indices_nd and expand_indices_add_increment (model is "
-        "the closed form of the ravel). rldecode with A shorter than n (IndexError) is tied, not "
-        "proved. csc is covered by reading the same record column-wise (the code does not branch "
-        "on the format apart from the shape); no separate transpose theorem. Trusted: Coq kernel + "
-        "vm_compute; the harness (generator, conversion of boolean masks / single ints to index "
-        "lists with numpy, literal emission); integer data stand for floats; scipy's constructor "
-        "keeps the raw arrays it is given; negative (wrap-around) indices and malformed storage "
-        "are outside the theorems' guards and not generated. The theorems are about the models; "
-        "the implementation is covered on the generated inputs only.")
+        "NOT proved (oracle-only, no Coq model): csr/csc_matrix_from_sparse_blocks, "
+        "csr/csc_matrix_from_dense_blocks, block_diag_matrix, sparse_kronecker_product (a two-line "
+        "wrapper of scipy.sparse.kron). Tied but not proved: the IndexError branch of merge_matrices "
+        "(a line number outside A). np.insert, np.argsort, fancy-index assignment, boolean masks and "
+        "slice assignment are modelled by their documented semantics (insert: stable, in front of the "
+        "old element at that position), not by numpy's implementation. csc is covered by reading the "
+        "same record column-wise (the code does not branch on the format apart from the shape); no "
+        "separate transpose theorem. Trusted: Coq kernel + vm_compute; the harness (generator, "
+        "conversion of boolean masks / single ints to index lists with numpy, literal emission); "
+        "integer data stand for floats; scipy's constructor keeps the raw arrays it is given; "
+        "negative (wrap-around) indices and malformed storage are outside the theorems' guards and "
+        "not generated. The theorems are about the models; the implementation is covered on the "
+        "generated inputs only.")
     technique = ("Coq proof (list induction over compressed storage, cumulative-sum/scatter "
-                 "invariants) + vm_compute execution correspondence + dense numpy oracle")
+                 "invariants, insertion-sort permutation argument for the unsorted merge) + vm_compute "
+                 "execution correspondence + dense numpy oracle")
     rule = ("per case one utility with random small inputs: csr/csc triples with 0-5 lines, 0-5 "
             "minor extent, ~30% empty lines, unsorted indices, 12% with duplicate indices, stored "
-            "zeros; index sets unsorted with repeats (slice/zero), unique unsorted (merge), boolean "
+            "zeros; index sets unsorted with repeats (slice/zero), unique unsorted and 30% sorted (merge, "
+            "plus ~12% invalid: shape/count mismatch, repeated or out-of-range line), boolean "
             "masks and single ints; integer bounds of any sign, empty and reversed ranges, "
             "broadcast and mismatching lengths (expand); counts with zeros and negatives, 2-D "
             "operands (rldecode); blocks with zero extents; non-trivial = non-empty operand; "
@@ -277,7 +287,20 @@ class C35(Prop):
         lines = self._lines(rng, A, unique=True)
         if rng.random() < 0.3:
             lines = sorted(lines)
-        B = gen_mat(rng, fmt=A["fmt"], nmaj=len(lines), nmin=A["nmin"])
+        nb, nmin = len(lines), A["nmin"]
+        r = rng.random()
+        if r < 0.03:
+            nmin += 1                                  # ValueError: shape mismatch
+        elif r < 0.06:
+            nb += 1                                    # ValueError: one line of B too many
+        elif r < 0.09 and lines:
+            lines = lines + [rng.choice(lines)]        # ValueError: repeated line
+            nb += 1
+        elif r < 0.12:
+            lines = lines + [A["nmaj"] + rng.randint(0, 1)]   # IndexError: no such line
+            rng.shuffle(lines)
+            nb += 1
+        B = gen_mat(rng, fmt=A["fmt"], nmaj=nb, nmin=nmin)
         return {"fn": "merge", "A": A, "B": B, "lines": lines}
 
     def g_blocks_sparse(self, rng):
@@ -531,6 +554,10 @@ class C35(Prop):
 
     def o_merge(self, case, res):
         A, B, lines = case["A"], case["B"], case["lines"]
+        valid = (A["nmin"] == B["nmin"] and len(lines) == B["nmaj"] and len(set(lines)) == len(lines)
+                 and all(i < A["nmaj"] for i in lines))
+        if not valid:
+            return None if "err" in res else "merge_matrices accepted invalid input"
         if "ok" not in res:
             return f"merge_matrices raised {res['err']} on valid input"
         exp = dense_of_raw(A)
@@ -658,6 +685,19 @@ class C35(Prop):
             m = f"(Ok (stack_diag {ccsr(case['A'])} {ccsr(case['B'])}))"
             return (f"andb (agree_csr {m} (Ok {ccsr(res['ok']['raw'])})) "
                     f"(agree_dense {m} {cllz(res['ok']['dense'])})")
+        if fn == "merge":
+            m = (f"(merge_matrices {ccsr(case['A'])} {ccsr(case['B'])} "
+                 f"{clist(case['lines'], cnat)})")
+            if "err" in res:
+                return f"agree_csr {m} (Err {res['err']})"
+            return (f"andb (agree_csr {m} (Ok {ccsr(res['ok']['raw'])})) "
+                    f"(agree_dense {m} {cllz(res['ok']['dense'])})")
+        if fn == "bdi":
+            if case["n"] is None:
+                return (f"eqb_listN (block_diag_index1 {clist(case['m'], cnat)}) "
+                        f"{clist(res['ok']['i'], cnat)}")
+            return (f"agree_lzlz (block_diag_index2 {clist(case['m'], cz)} {clist(case['n'], cz)}) "
+                    f"(Ok ({clist(res['ok']['i'], cz)}, {clist(res['ok']['j'], cz)}))")
         return None  # oracle-only utilities
 
     def coq_diag(self, case, res):
@@ -676,6 +716,8 @@ class C35(Prop):
             return f"zero_lines {ccsr(case['M'])} {clist(case['ind'], cnat)}"
         if fn in ("stack_mat", "stack_diag"):
             return f"{fn} {ccsr(case['A'])} {ccsr(case['B'])}"
+        if fn == "merge":
+            return f"merge_matrices {ccsr(case['A'])} {ccsr(case['B'])} {clist(case['lines'], cnat)}"
         return None
 
     def nontrivial(self, case, res):
@@ -720,15 +762,16 @@ class C35(Prop):
         return case
 
     def extra_evidence(self):
-        return {"utilities_with_coq_model": ["expand_index_pointers", "expand_indices_nd",
-                                             "expand_indices_add_increment", "rlencode", "rldecode",
-                                             "slice_sparse_matrix", "slice_indices", "zero_rows",
-                                             "zero_columns", "stack_mat", "stack_diag"],
-                "utilities_oracle_only": ["merge_matrices", "csr_matrix_from_sparse_blocks",
+        return {"utilities_with_coq_model_and_theorems": [
+                    "expand_index_pointers", "expand_indices_nd", "expand_indices_add_increment",
+                    "rlencode", "rldecode", "slice_sparse_matrix", "slice_indices", "zero_rows",
+                    "zero_columns", "stack_mat", "stack_diag", "merge_matrices",
+                    "block_diag_index(m)", "block_diag_index(m, n)"],
+                "utilities_oracle_only": ["csr_matrix_from_sparse_blocks",
                                           "csc_matrix_from_sparse_blocks",
                                           "csr_matrix_from_dense_blocks",
-                                          "csc_matrix_from_dense_blocks", "block_diag_index",
-                                          "block_diag_matrix", "sparse_kronecker_product"]}
+                                          "csc_matrix_from_dense_blocks", "block_diag_matrix",
+                                          "sparse_kronecker_product"]}
 
 
 PROP = C35()
